@@ -123,6 +123,72 @@ def py_key(k):
     return tuple(py_cell(c) for c in k)
 
 
+INT_TYPES = {}
+for _b in (8, 16, 32, 64):
+    INT_TYPES[f"int{_b}"] = INT_TYPES[f"Int{_b}"] = (-2 ** (_b - 1), 2 ** (_b - 1) - 1)
+    INT_TYPES[f"uint{_b}"] = INT_TYPES[f"UInt{_b}"] = (0, 2 ** _b - 1)
+SIGNED = [t for t in INT_TYPES if t[0] in "iI"]
+UNSIGNED = [t for t in INT_TYPES if t[0] in "uU"]
+FLOAT_TYPES = ["float64", "float32", "Float64", "Float32"]
+
+
+def kind(dt):
+    """'i' | 'f' | 'd' | 'b' of a column type such as 'i', 'i:uint16', 'f:float32', 'd:us', 'b:str'."""
+    return dt.split(":")[0]
+
+
+def f32_exact(x):
+    import struct
+    try:
+        return struct.unpack("f", struct.pack("f", x))[0] == x
+    except (OverflowError, struct.error):
+        return False
+
+
+def admissible_int(values, family=None):
+    """The integer storage types that hold all these values (a cell is its mathematical value, whatever the width)."""
+    names = SIGNED + UNSIGNED if family is None else (SIGNED if family == "signed" else UNSIGNED)
+    ok = [t for t in names if all(INT_TYPES[t][0] <= v <= INT_TYPES[t][1] for v in values)]
+    if any(v >= 2 ** 53 for v in values):
+        # kept out (reported for triage, corpus/C03/uint64_storage_replay.py): pandas' nullable UInt64 index merges
+        # distinct values above 2**63 in unique(), so IndexMap refuses unique keys with a false "Non-unique keys"
+        ok = [t for t in ok if t != "UInt64"]
+    return ok
+
+
+def fit_types(steps, rng, retype=False, mix=None):
+    """Choose the STORAGE type of every integer / float key column: any width and signedness that holds the values
+    (int8..int64, uint8..uint64, nullable Int8..UInt64; float32/Float32 when every value is a float32).  One
+    signedness family per column and map (a map never mixes uint64 with signed batches: see the report, class F-AK
+    candidate), the width may change from batch to batch when `mix`.  retype=True: choose afresh (C04 pairs)."""
+    if not steps:
+        return steps
+    ncols = len(steps[0]["dtypes"])
+    mix = rng.random() < 0.5 if mix is None else mix
+    for j in range(ncols):
+        kinds = {kind(st["dtypes"][j]) for st in steps if len(st["dtypes"]) > j}
+        if kinds == {"i"}:
+            allv = [k[j][1] for st in steps for k in st["keys"]]
+            fam = "signed" if any(v < 0 for v in allv) else "unsigned" if any(v >= 2 ** 63 for v in allv) else rng.choice(["signed", "signed", "unsigned"])
+            whole = admissible_int(allv, fam) or ["int64"]
+            one = rng.choice(whole + [whole[0]] * 2)
+            for st in steps:
+                cur = st["dtypes"][j][2:] or "int64"
+                vals = [k[j][1] for k in st["keys"]]
+                if retype or st["dtypes"][j] == "i" or cur not in admissible_int(vals) or (cur in SIGNED) != (fam == "signed"):
+                    st["dtypes"] = list(st["dtypes"])
+                    st["dtypes"][j] = "i:" + (rng.choice(admissible_int(vals, fam) or ["int64"]) if mix else one)
+        elif kinds == {"f"}:
+            for st in steps:
+                cur = st["dtypes"][j][2:] or "float64"
+                vals = [float.fromhex(k[j][1]) for k in st["keys"]]
+                ok = FLOAT_TYPES if all(f32_exact(v) for v in vals) else ["float64", "Float64"]
+                if retype or st["dtypes"][j] == "f" or cur not in ok:
+                    st["dtypes"] = list(st["dtypes"])
+                    st["dtypes"][j] = "f:" + rng.choice(ok if (mix or retype) else ok[:1] + ok)
+    return steps
+
+
 def column(dtype, cells):
     import numpy as np
     import pandas as pd
@@ -133,10 +199,20 @@ def column(dtype, cells):
         col = pd.Series(arr)
         assert str(col.dtype) == f"datetime64[{unit}]", col.dtype
         return col
-    if dtype == "i":
-        return pd.Series(np.array([c[1] for c in cells], dtype="int64"))
-    if dtype == "f":
-        return pd.Series(np.array([float.fromhex(c[1]) for c in cells], dtype="float64"))
+    if kind(dtype) == "i":
+        name = dtype[2:] or "int64"
+        lo, hi = INT_TYPES[name]
+        assert all(lo <= c[1] <= hi for c in cells), (dtype, [c[1] for c in cells][:3])   # an int cell is its value
+        if name[0] in "IU":                                                               # pandas nullable extension types
+            return pd.Series(pd.array([int(c[1]) for c in cells], dtype=name))
+        return pd.Series(np.array([int(c[1]) for c in cells], dtype=name))
+    if kind(dtype) == "f":
+        name = dtype[2:] or "float64"
+        vals = [float.fromhex(c[1]) for c in cells]
+        assert name.lower() != "float32" or all(f32_exact(v) for v in vals), (dtype, vals[:3])
+        if name[0] == "F":
+            return pd.Series(pd.array(vals, dtype=name))
+        return pd.Series(np.array(vals, dtype=name))
     if dtype == "b:str":
         return pd.Series([str(c[1]) for c in cells], dtype="object")
     if dtype == "b:bool":
@@ -149,11 +225,13 @@ def frame(dtypes, labels, keys):
     data = {}
     for j, dt in enumerate(dtypes):
         col = column(dt, [k[j] for k in keys])
-        data[f"k{j}"] = col.to_numpy() if not dt.startswith("b:str") else col.tolist()
+        data[f"k{j}"] = col.tolist() if dt.startswith("b:str") else col.array
     df = pd.DataFrame(data, index=pd.Index(list(labels), dtype="int64"))
     for j, dt in enumerate(dtypes):
         if dt.startswith("d:"):
             assert str(df[f"k{j}"].dtype) == f"datetime64[{dt[2:]}]", df.dtypes
+        elif kind(dt) in "if" and ":" in dt:
+            assert str(df[f"k{j}"].dtype) == dt[2:], (df.dtypes, dt)
     return df
 
 
@@ -185,10 +263,24 @@ def clock_value(t):
 # ----------------------------------------------------------------------------------------------------------------
 def gen_int(rng, mode, j, size):
     v = _gen_int(rng, mode, j, size)
+    if mode == "ubig":
+        return v % 2 ** 64                                # only a uint64 column holds these
     return ((v + 2 ** 63) % 2 ** 64) - 2 ** 63          # an int64 column cannot hold more
 
 
+WIDTH_EDGES = [127, 128, 255, 256, 32767, 32768, 65535, 65536, 2 ** 31 - 1, 2 ** 31, 2 ** 32 - 1, 2 ** 32,
+               19327, 19328, 19329, 19400, 38655, 38656, 2 ** 15 // 2, 294, 295, 589, 590]   # 19328 * 111111 > 2**31, ...
+
+
 def _gen_int(rng, mode, j, size):
+    if mode == "lim":       # near the limits of the narrow storage types and where v * 111111 leaves them
+        e = rng.choice(WIDTH_EDGES)
+        return rng.choice([e, e - j, e - j, -e + j, -e - 1 + j]) if rng.random() < 0.7 else rng.randint(-40000, 70000)
+    if mode == "ulim":      # non-negative, for unsigned storage
+        e = rng.choice(WIDTH_EDGES)
+        return abs(e - j) if rng.random() < 0.7 else rng.randint(0, 70000)
+    if mode == "ubig":
+        return 2 ** 63 + rng.choice([0, 1, 2 ** 62, 2 ** 63 - 1 - 2 * j, 12345]) + j
     if mode == "small":
         return rng.randint(0, 60)
     if mode == "seq":
@@ -205,6 +297,10 @@ def _gen_int(rng, mode, j, size):
 
 
 def gen_float(rng, mode, j):
+    if mode == "f32":       # values a float32 column holds exactly (0.1f is not 0.1)
+        import struct
+        x = rng.choice([rng.uniform(0, 110), rng.randint(0, 1200) / 10.0, -rng.uniform(0, 50), 3.4e38 * rng.random(), 1e-40 * rng.randint(1, 99)])
+        return struct.unpack("f", struct.pack("f", x))[0]
     if mode == "dyadic":
         return rng.randint(0, 1600) / 16.0
     if mode == "decimal":
@@ -239,8 +335,8 @@ def gen_date(rng, mode, j, unit):
     return rng.randint(0, 4 * 10 ** 9) * 10 ** 9
 
 
-INT_MODES = ["small", "small", "seq", "big", "wrap", "neg", "mult", "edge"]
-FLOAT_MODES = ["dyadic", "decimal", "decimal", "age", "age", "neg", "tiny", "big", "ulp", "edge"]
+INT_MODES = ["small", "small", "seq", "big", "wrap", "neg", "mult", "edge", "lim", "lim", "ulim", "ubig"]
+FLOAT_MODES = ["dyadic", "decimal", "decimal", "age", "age", "neg", "tiny", "big", "ulp", "edge", "f32", "f32"]
 DATE_MODES = ["daily", "subsec", "subsec", "old", "clip", "any"]
 
 
@@ -304,6 +400,7 @@ def gen_history(rng, nbatch=None, size=None, schema=None, dense=False):
     label_mode = rng.choice(["consecutive", "consecutive", "shuffled", "sparse"])
     steps, seen, used_labels, total, nxt = [], set(), set(), 0, 0
     base_dts = list(dts)
+    ubig_cols = [m == "ubig" for m in modes]
     mixed_units = rng.random() < 0.5      # every batch stores its datetime columns in a unit of its own (same instants scale)
     for bi in range(nb):
         dts = [f"d:{rng.choice(UNITS)}" if (mixed_units and dt.startswith("d:")) else dt for dt in base_dts]
@@ -318,6 +415,8 @@ def gen_history(rng, nbatch=None, size=None, schema=None, dense=False):
             if rng.random() < 0.1:   # switch the value mode of one column inside the batch
                 modes[rng.randrange(len(dts))] = rng.choice(["edge", "small", "decimal", "subsec"])
                 modes = [m if _mode_ok(m, dt) else ("any" if dt.startswith("d:") else "edge") for m, dt in zip(modes, dts)]
+                # a column that holds values above 2**63 lives in unsigned storage: no negative values in it
+                modes = [m if not ub or m in ("ubig", "small", "ulim", "seq") else "ulim" for m, ub in zip(modes, ubig_cols)]
             k = [gen_cell(rng, dt, m, total + len(keys), size) for dt, m in zip(dts, modes)]
             pk = py_key(k)
             if pk in seen:
@@ -338,6 +437,7 @@ def gen_history(rng, nbatch=None, size=None, schema=None, dense=False):
                 rng.shuffle(labels)
         total += len(keys)
         steps.append({"dtypes": list(dts), "labels": labels, "keys": keys, "t": clock[bi]})
+    fit_types(steps, rng)
     return {"size": size, "crn": True, "fuel": FUEL, "steps": steps, "qseed": rng.getrandbits(32)}
 
 
@@ -382,17 +482,17 @@ def gen_hist(rng):
 def gen_bad(rng):
     case = gen_history(rng, nbatch=rng.choice([2, 3, 4]))
     steps = case["steps"]
-    kind = rng.choice(["dup_in", "dup_in", "dup_old", "dup_old", "zero", "empty", "baddtype", "crn_off", "stuck",
+    bkind = rng.choice(["dup_in", "dup_in", "dup_old", "dup_old", "zero", "empty", "baddtype", "crn_off", "stuck",
                        "dup_perm"])
-    case["bad"] = kind
+    case["bad"] = bkind
     nonempty = [i for i, s in enumerate(steps) if s["keys"]]
-    if kind in ("dup_in", "dup_perm") and nonempty:
+    if bkind in ("dup_in", "dup_perm") and nonempty:
         s = steps[rng.choice(nonempty)]
         src = rng.randrange(len(s["keys"]))
         pos = rng.randint(0, len(s["keys"]))
         s["keys"].insert(pos, json.loads(json.dumps(s["keys"][src])))
         s["labels"].insert(pos, max([l for st in steps for l in st["labels"]] + [0]) + 1)
-    elif kind == "dup_old" and len(nonempty) >= 1:
+    elif bkind == "dup_old" and len(nonempty) >= 1:
         i = rng.choice(nonempty)
         later = [j for j in range(i + 1, len(steps))]
         if not later:
@@ -403,9 +503,9 @@ def gen_bad(rng):
         pos = rng.randint(0, len(steps[j]["keys"]))
         steps[j]["keys"].insert(pos, k)
         steps[j]["labels"].insert(pos, max([l for st in steps for l in st["labels"]] + [0]) + 1)
-    elif kind == "zero":
+    elif bkind == "zero":
         # 0.0 and -0.0 are one key for pandas
-        fl = [j for j, dt in enumerate(steps[0]["dtypes"]) if dt == "f"]
+        fl = [j for j, dt in enumerate(steps[0]["dtypes"]) if kind(dt) == "f"]
         if fl and nonempty:
             s = steps[rng.choice(nonempty)]
             k = json.loads(json.dumps(s["keys"][0]))
@@ -415,28 +515,30 @@ def gen_bad(rng):
             mx = max([l for st in steps for l in st["labels"]] + [0])
             s["keys"] += [k, k2]
             s["labels"] += [mx + 1, mx + 2]
-    elif kind == "empty":
+    elif bkind == "empty":
         i = rng.randrange(len(steps))
         steps.insert(i, {"dtypes": steps[0]["dtypes"], "labels": [], "keys": [], "t": steps[i]["t"]})
-    elif kind == "baddtype" and nonempty:
+    elif bkind == "baddtype" and nonempty:
         s = steps[rng.choice(nonempty)]
         j = rng.randrange(len(s["dtypes"]))
         s["dtypes"] = list(s["dtypes"])
         s["dtypes"][j] = rng.choice(["b:str", "b:bool"])
         for n, k in enumerate(s["keys"]):
             k[j] = ["b", f"v{n}" if rng.random() < 0.9 else "v0"]
-    elif kind == "crn_off":
+    elif bkind == "crn_off":
         case["crn"] = False
-    elif kind == "stuck":
+    elif bkind == "stuck":
         # a block size that divides 111111 = 3*7*11*13*37: the integer salt adds a multiple of the size, a key that
         # has to be re-hashed lands on the same position under every salt, and the loop cannot finish once that
         # position is taken (DESIGN section 7, F-J: liveness is outside the property; model: OutOfFuel)
         size = rng.choice([7, 11, 13, 21, 33, 37, 39, 77, 91])
-        fresh = gen_history(rng, nbatch=rng.choice([1, 2]), size=size, schema=(steps[0]["dtypes"], "us")
+        fresh = gen_history(rng, nbatch=rng.choice([1, 2]), size=size, schema=([kind(dt) for dt in steps[0]["dtypes"]], "us")
                             if not any(dt.startswith("d:") for dt in steps[0]["dtypes"]) else None, dense=True)
         case["size"] = size
         case["steps"] = steps = fresh["steps"]
     fit_units(steps, rng)
+    if not any(dt.startswith("b:") for st in steps for dt in st["dtypes"]):
+        fit_types(steps, rng)
     # dedupe accidental label clashes
     seen = set()
     for st in steps:
@@ -815,13 +917,24 @@ def corpus_conv():
     return [dict(c, size=2 ** 61 - 1) for c in out]
 
 
+def storage_for(rng_seed, dt, cells):
+    """A random storage type that holds these cells (deterministic in the case)."""
+    r = random.Random(rng_seed)
+    if dt == "i":
+        return "i:" + r.choice(admissible_int([c[1] for c in cells]))
+    if dt == "f":
+        return "f:" + r.choice(FLOAT_TYPES if all(f32_exact(float.fromhex(c[1])) for c in cells) else ["float64", "Float64"])
+    return dt
+
+
 def run_conv(case):
     """One value of one key column: its ten-digit conversion decides the position in a huge block (public API only)."""
+    case = dict(case, dtype=storage_for(json.dumps(case, sort_keys=True), case["dtype"], [case["cell"]]))
     v, tcell = public_hash(case["size"], [case["dtype"]], [case["cell"]], ["i", 0])
     ok = v is not None and 0 <= v < case["size"]
     return Result(ok=ok, msg="" if ok else f"a key registered alone sits at {v}, outside [0,{case['size']})",
                   coq="(" + cpair(cz(case["size"]), coq_key([case["cell"]]), coq_cell(tcell), cz(-1 if v is None else v)) + " : Z * key * cell * Z)",
-                  key=json.dumps(case), obs=v, tags=(case["dtype"][0],))
+                  key=json.dumps(case), obs=v, tags=(case["dtype"],))
 
 
 def gen_hashcase(rng):
@@ -833,6 +946,8 @@ def gen_hashcase(rng):
 
 
 def run_hashcase(case):
+    seed = json.dumps(case, sort_keys=True)
+    case = dict(case, dtypes=[storage_for(seed + str(j), dt, [c]) for j, (dt, c) in enumerate(zip(case["dtypes"], case["key"]))])
     v, tcell = public_hash(case["size"], case["dtypes"], case["key"], case["t"])
     ok = v is not None and 0 <= v < case["size"]
     return Result(ok=ok, msg="" if ok else f"a key registered alone sits at {v}, outside [0,{case['size']})",
@@ -991,8 +1106,8 @@ def gen_mgr(rng):
             nxt += n
         total += n
         present = list(MGR_COLS)
-        kind = rng.choice(["ok", "ok", "ok", "missing", "extra_only_order"]) if kcols else "ok"
-        if kind == "missing":
+        rkind = rng.choice(["ok", "ok", "ok", "missing", "extra_only_order"]) if kcols else "ok"
+        if rkind == "missing":
             present.remove(rng.choice(kcols))
         if rng.random() < 0.5:
             present.remove("x1")
@@ -1010,6 +1125,8 @@ def gen_mgr(rng):
                 if name == "k0":
                     seen.add((name, py_cell(c)))
                 cells.append(c)
+            if dt == "i":
+                dt = "i:" + rng.choice(admissible_int([c[1] for c in cells], "signed") or ["int64"])
             cols.append([name, dt, cells])
         regs.append({"where": "init" if r == 0 else "step", "labels": labels, "cols": cols})
     return {"cfg": cfg, "pop": pop, "kcols": kcols, "regs": regs, "seed": rng.randint(0, 9)}
@@ -1039,7 +1156,7 @@ def run_mgr(case):
         data = {}
         for name, dt, cells in reg["cols"]:
             col = column(dt, cells)
-            data[name] = col.to_numpy()
+            data[name] = col.array
         return pd.DataFrame(data, index=pd.Index(reg["labels"], dtype="int64"))
 
     class Registrar(Component):
@@ -1174,6 +1291,56 @@ def _finish_mgr(case, imap, size_obs, events, uncounted):
                   tags=(f"nkey{len(kcols)}", f"codes{''.join(sorted(set(codes)))}", "floor" if 10 * case["pop"] > case["cfg"] else "configured"))
 
 
+# ----------------------------------------------------------------------------------------------------------------
+# stream `deep`: TERMINATING registrations that need many collision rounds (70-110 keys whose hashes coincide under
+# every salt, in a block with plenty of room whose size is coprime to 111111: C03_fuel_single_column says the loop
+# finishes).  Every offered key must end up registered at a finite, in-range, distinct integer position.
+# ----------------------------------------------------------------------------------------------------------------
+DEEP_FUEL = 400
+DEEP_SIZES = [1009, 4099, 10007, 100003, 10 ** 6]
+
+
+def gen_deep(rng, n=None):
+    n = n or rng.randint(70, 95)
+    size = rng.choice(DEEP_SIZES)
+    variant = rng.choice(["frac", "frac", "int10", "second"])
+    if variant == "frac":         # one float column, every value has the same fractional part
+        frac = rng.choice([0.5, 0.25, 0.125, 0.75, 0.0])
+        ints = rng.sample(range(0, 400), n)
+        dts, keys = ["f"], [[["f", float(i + frac).hex()]] for i in ints]
+    elif variant == "int10":      # one int column, the values differ by multiples of 10**10: one ten-digit conversion
+        v0 = rng.randint(0, 10 ** 6)
+        dts, keys = ["i"], [[["i", v0 + 10 ** 10 * j]] for j in rng.sample(range(0, 900), n)]
+    else:                         # one datetime column, all instants inside one second
+        sec = (1_120_000_000 + rng.randint(0, 10 ** 7)) * 10 ** 9
+        dts, keys = ["d:ns"], [[["d", sec + j]] for j in rng.sample(range(0, 10 ** 9), n)]
+    t = rng.choice([["i", 0], ["i", 7], ["d", 1120262400000000000, "us"]])
+    t2 = ["i", t[1] + 1] if t[0] == "i" else ["d", t[1] + 86400 * 10 ** 9, "us"]
+    cut = rng.choice([n, n, rng.randint(n // 2, n - 5)])
+    labels = list(range(n))
+    steps = [{"dtypes": list(dts), "labels": labels[:cut], "keys": keys[:cut], "t": t}]
+    if cut < n:
+        steps.append({"dtypes": list(dts), "labels": labels[cut:], "keys": keys[cut:], "t": t2})
+    fit_types(steps, rng, mix=False)
+    return {"size": size, "crn": True, "fuel": DEEP_FUEL, "steps": steps, "qseed": rng.getrandbits(32), "deep": variant}
+
+
+def corpus_deep():
+    return [{"size": 1009, "crn": True, "fuel": DEEP_FUEL, "qseed": 31, "deep": "frac", "steps": [
+        {"dtypes": ["f"], "labels": list(range(70)), "keys": [[["f", float(j + 0.5).hex()]] for j in range(70)], "t": ["i", 0]}]}]
+
+
+def run_deep(case):
+    r = run_hist(case, "deep")
+    if r.ok:
+        trace_codes = r.obs["codes"]
+        nkeys = sum(len(st["keys"]) for st in case["steps"])
+        got = r.obs["final"]
+        if any(c != 0 for c in trace_codes):
+            r.ok, r.msg = False, f"a terminating registration of {nkeys} unique keys did not complete: codes {trace_codes} {r.obs['errors']}"
+    return r
+
+
 def shrink_hist(case):
     """Smaller variants of a history: drop a batch, halve a batch, drop one key, drop a key column."""
     import copy
@@ -1212,11 +1379,13 @@ def streams(tier):
     imp = "From Viv Require Import Common IndexMap."
     return [
         Stream(name="hist", imports=imp, check="check_c03", gen=gen_hist, run=run_hist, corpus=corpus_hist, shrink=shrink_hist,
-               n_quick=120, n_thorough=2000),
+               n_quick=100, n_thorough=1600),
         Stream(name="bad", imports=imp, check="check_c03", gen=gen_bad, run=run_bad, corpus=corpus_bad, shrink=shrink_hist,
                n_quick=60, n_thorough=600),
         Stream(name="conv", imports=imp, check="check_hash", gen=gen_conv, run=run_conv, corpus=corpus_conv,
                n_quick=240, n_thorough=1500),
+        Stream(name="deep", imports=imp, check="check_c03", gen=gen_deep, run=run_deep, corpus=corpus_deep, shrink=shrink_hist,
+               n_quick=2, n_thorough=10),
         Stream(name="query", imports=imp, check="check_cq", gen=gen_query, run=run_querycase, corpus=corpus_query,
                n_quick=50, n_thorough=600),
         Stream(name="mgr", imports=imp, check="check_mgr", gen=gen_mgr, run=run_mgr, corpus=corpus_mgr,
